@@ -83,8 +83,12 @@ func c02Chains(c *Ctx, pool map[int][]uint64) []c02Chain {
 	add("noP", []int{45, 36, 50, 40}, nil)
 	add("single", []int{55}, []int{61})
 	add("single-noP", []int{61}, nil)
+	if c.Thorough() {
+		// range side-conditions of multSum: many 60/61-bit primes
+		add("wide61", []int{61, 61, 61, 61, 61, 60, 60, 60, 61, 61, 60, 61}, []int{61, 60, 61, 60})
+	}
 	// random mixed chains: #Q 1..5, #P 0..3
-	n := c.Scale(3, 30)
+	n := c.Scale(3, 60)
 	for k := 0; k < n; k++ {
 		nq := 1 + r.Intn(5)
 		np := r.Intn(4)
@@ -99,6 +103,17 @@ func c02Chains(c *Ctx, pool map[int][]uint64) []c02Chain {
 		add(fmt.Sprintf("rnd%d", k), qs, ps)
 	}
 	return chains
+}
+
+// c02Levels: every level of a chain of up to 6 moduli; the two ends of a longer one.
+func c02Levels(n int) []int {
+	var out []int
+	for l := 0; l < n; l++ {
+		if n <= 6 || l < 2 || l >= n-2 {
+			out = append(out, l)
+		}
+	}
+	return out
 }
 
 // ---- big.Int helpers --------------------------------------------------------------------------
@@ -286,7 +301,7 @@ func c02JunkPoly(r *SplitMix, N, level int) ring.Poly {
 func genC02(c *Ctx) {
 	po := probesOnly()
 	r := c.rng
-	pool := c02Pool(c02Sizes, 10)
+	pool := c02Pool(c02Sizes, 12)
 	chains := c02Chains(c, pool)
 	for ci, ch := range chains {
 		N := 16
@@ -317,10 +332,14 @@ func genC02(c *Ctx) {
 		if ringP != nil {
 			c02Small(c, po, N, ringQ, ringP, ch)
 		}
+		if len(ch.Q) <= 6 {
+			c02DecompNTT(c, po, ch)
+		}
 	}
 	c02Mask(c, po, pool)
 	c02Int(c, po, pool)
 	c02KeySwitchNoP(c)
+	c02DigitCount(c)
 	_ = r
 }
 
@@ -352,7 +371,7 @@ func c02CallDiv(kind string, rl *ring.Ring, nb int, p0, buff, p1 ring.Poly) {
 func c02Div(c *Ctx, po bool, N int, ringQ *ring.Ring, ch c02Chain) {
 	r := c.rng
 	gs := c02PrimRoots(ringQ)
-	for level := 0; level < len(ch.Q); level++ {
+	for _, level := range c02Levels(len(ch.Q)) {
 		rl := ringQ.AtLevel(level)
 		moduli := ch.Q[:level+1]
 		M := c02ProdBig(moduli)
@@ -408,6 +427,40 @@ func c02Div(c *Ctx, po bool, N int, ringQ *ring.Ring, ch c02Chain) {
 				}
 			}
 		}
+		// malformed: unreduced limbs (lazy 2q range and full 64-bit words) — tie only, the model follows the
+		// uint64 wrap-around of the code
+		if !po && level >= 1 {
+			for _, kind := range c02DivKinds {
+				if strings.Contains(kind, "many") && level < 2 {
+					continue
+				}
+				nb := 1
+				if strings.Contains(kind, "many") {
+					nb = 2
+				}
+				p0 := ring.NewPoly(N, level)
+				full := r.Intn(2) == 0
+				for i := range p0.Coeffs {
+					for j := range p0.Coeffs[i] {
+						if full {
+							p0.Coeffs[i][j] = r.U64()
+						} else {
+							p0.Coeffs[i][j] = r.Below(2 * ch.Q[i])
+						}
+					}
+				}
+				in := c02RowsCopy(p0, level+1)
+				buff := c02JunkPoly(r, N, level)
+				p1 := c02JunkPoly(r, N, level-nb)
+				line := fmt.Sprintf("div %s %d %s %s %d %d %s", kind, N, Vec(ringQ.ModuliChain()), Vec(gs), level, nb, Mat(in))
+				out := Try(func() string {
+					c02CallDiv(kind, rl, nb, p0, buff, p1)
+					return Mat(c02RowsCopy(p1, level-nb+1)) + "|" + Mat(c02RowsCopy(p0, level+1))
+				})
+				c.Emit(line, out)
+				c.Count("div:malformed-unreduced-limbs")
+			}
+		}
 		// malformed: more rescalings than levels -> AtLevel(-1) panics
 		if !po && level <= 2 {
 			for _, kind := range []string{"floormany", "floormanyntt", "roundmany", "roundmanyntt"} {
@@ -439,7 +492,7 @@ func c02BasisExt(c *Ctx, po bool, N int, ringQ, ringP *ring.Ring, ch c02Chain) {
 	be := ring.NewBasisExtender(ringQ, ringP)
 	gQ, gP := c02PrimRoots(ringQ), c02PrimRoots(ringP)
 	Qs, Ps := Vec(ch.Q), Vec(ch.P)
-	for levelQ := 0; levelQ < len(ch.Q); levelQ++ {
+	for _, levelQ := range c02Levels(len(ch.Q)) {
 		for levelP := 0; levelP < len(ch.P); levelP++ {
 			mQ, mP := ch.Q[:levelQ+1], ch.P[:levelP+1]
 			MQ, MP := c02ProdBig(mQ), c02ProdBig(mP)
@@ -470,19 +523,34 @@ func c02BasisExt(c *Ctx, po bool, N int, ringQ, ringP *ring.Ring, ch c02Chain) {
 					c.Count("modup:" + dir)
 					c02ProbeModUp(c, dir, src, dst, X, in, c02RowsCopy(pin, len(src)), out, fmt.Sprintf("%s %s %s %d %d %s", dir, Qs, Ps, levelQ, levelP, Mat(in)))
 					// raw ModUpExact (unreduced output, exposes the float index v)
-					if !po {
+					{
 						var muc ring.ModUpConstants
+						var line string
 						raw := c02JunkPoly(r, N, len(dst)-1)
 						if dir == "qtop" {
 							muc = ring.GenModUpConstants(mQ, ch.P)
 							ring.ModUpExact(pin.Coeffs[:levelQ+1], raw.Coeffs[:levelP+1], ringQ, ringP, muc)
-							c.Emit(fmt.Sprintf("modupexact %s %s %d %d %s", Qs, Ps, levelQ, levelP, Mat(in)), Mat(c02RowsCopy(raw, len(dst))))
+							line = fmt.Sprintf("%s %s %d %d %s", Qs, Ps, levelQ, levelP, Mat(in))
 						} else {
 							muc = ring.GenModUpConstants(mP, ch.Q)
 							ring.ModUpExact(pin.Coeffs[:levelP+1], raw.Coeffs[:levelQ+1], ringP, ringQ, muc)
-							c.Emit(fmt.Sprintf("modupexact %s %s %d %d %s", Ps, Qs, levelP, levelQ, Mat(in)), Mat(c02RowsCopy(raw, len(dst))))
+							line = fmt.Sprintf("%s %s %d %d %s", Ps, Qs, levelP, levelQ, Mat(in))
+						}
+						rawRows := c02RowsCopy(raw, len(dst))
+						if !po {
+							c.Emit("modupexact "+line, Mat(rawRows))
 						}
 						c.Count("modupexact")
+						// the doc comment of ModUpExact: "returned values are in [0, 2P-1]"
+						dd := ""
+						for i, p := range dst {
+							for j, v := range rawRows[i] {
+								if v > 2*p-1 {
+									dd = fmt.Sprintf("row %d coeff %d: %d > 2p-1 = %d", i, j, v, 2*p-1)
+								}
+							}
+						}
+						c.Probe("modupexact_documented_range", line, "C02/ModUpExact/output-exceeds-documented-2P-1", dd)
 					}
 				}
 				// ---- ModDown
@@ -548,7 +616,7 @@ func c02Decomp(c *Ctx, po bool, N int, ringQ, ringP *ring.Ring, ch c02Chain) {
 	if ringP != nil {
 		hasP = 1
 	}
-	for levelQ := 0; levelQ < len(ch.Q); levelQ++ {
+	for _, levelQ := range c02Levels(len(ch.Q)) {
 		mQ := ch.Q[:levelQ+1]
 		MQ := c02ProdBig(mQ)
 		lps := []int{-1}
